@@ -92,6 +92,7 @@ type Stream struct {
 	// Read data above the sinceTs. All keys with version =< sinceTs will be ignored.
 	SinceTs      uint64
 	readTs       uint64
+	snap         *Txn // Fixes the read timestamp of all the producers of one Orchestrate call.
 	db           *DB
 	rangeCh      chan keyRange
 	kvChan       chan *z.Buffer
@@ -177,9 +178,16 @@ func (st *Stream) produceKVs(ctx context.Context, threadId int) error {
 	vhook.PointID("stream.producerStart", uint64(threadId+1))
 
 	var txn *Txn
-	if st.readTs > 0 {
+	switch {
+	case st.readTs > 0:
 		txn = st.db.NewTransactionAt(st.readTs, false)
-	} else {
+	case st.snap != nil:
+		// Read at the timestamp picked by Orchestrate. Discard marks the read as done, so
+		// it has to be marked as begun here.
+		txn = st.db.newTransaction(false, true)
+		txn.readTs = st.snap.readTs
+		st.db.orc.readMark.Begin(txn.readTs)
+	default:
 		txn = st.db.NewTransaction(false)
 	}
 	defer txn.Discard()
@@ -427,6 +435,17 @@ func (st *Stream) Orchestrate(ctx context.Context) error {
 
 	if st.KeyToList == nil {
 		st.KeyToList = st.ToList
+	}
+
+	// All the producers must read at the same timestamp. If each of them started a transaction
+	// of its own, a commit landing in between would be streamed only for the key ranges of the
+	// producers which started later, and the output would not be a snapshot of the DB.
+	if st.readTs == 0 && !st.db.opt.managedTxns {
+		st.snap = st.db.NewTransaction(false)
+		defer func() {
+			st.snap.Discard()
+			st.snap = nil
+		}()
 	}
 
 	// Picks up ranges from Badger, and sends them to rangeCh.
